@@ -1,7 +1,8 @@
 --------------------------- MODULE TracePublishPlan ---------------------------
 (* Trace validation of real mutable publishes (harness/publishproto_driver.py) against PublishPlan.tla.
 
-   consts: K, N (TLC constants, one run per encoding), servers (= the permuted list of the connected
+   consts: K, N (per trace: PublishPlan is instantiated with the encoding of the trace, so that one TLC run
+   validates the traces of all encodings), servers (= the permuted list of the connected
    servers, Publish.full_serverlist), perm (servers with upload permission), fmt, vers (version id ->
    [seq, rh]), op ("publish" | "update" | "modify"), base (version an update / modify started from).
    events: Layout, Map, Send, Interfere, Write, Finish, Modifier, After, SetupFailed (see the driver).
@@ -12,7 +13,7 @@
    that the recording is not a behaviour of the Spec for a reason outside the contract.  The clauses that
    describe known disagreements between the documents and the code are evaluated last (at the end of a trace),
    so that they cannot hide another rejection of the same trace. *)
-EXTENDS PublishPlan, Json, IOUtils, TLCExt
+EXTENDS Common, Json, IOUtils, TLCExt
 
 Traces == JsonDeserialize(IOEnv.TRACE_FILE)
 
@@ -22,6 +23,30 @@ tvars == <<tid, l, L, mp, P, gh, bad>>
 C == Traces[tid].consts
 Events == Traces[tid].events
 Ev == Events[l]
+
+\* PublishPlan (a constant module) instantiated with the encoding of the current trace; the operators used below
+PL(k, n) == INSTANCE PublishPlan WITH K <- k, N <- n
+K == C.K
+N == C.N
+Shnums == 0..(N - 1)
+Genuine(c) == c > 0 /\ c < 100
+KnownShares(M) == PL(K, N)!KnownShares(M)
+NewSeq(V2, M) == PL(K, N)!NewSeq(V2, M)
+PublishGoalOf(M, B, ord, perm) == PL(K, N)!PublishGoalOf(M, B, ord, perm)
+Slots0(M, B) == PL(K, N)!Slots0(M, B)
+UpdateGoalDoc(M, b) == PL(K, N)!UpdateGoalDoc(M, b)
+TestOf(M, B, p) == PL(K, N)!TestOf(M, B, p)
+Passes(c, t) == PL(K, N)!Passes(c, t)
+ReadsOf(Ls) == PL(K, N)!ReadsOf(Ls)
+Start(fmt, M, B, goal, newc) == PL(K, N)!Start(fmt, M, B, goal, newc)
+GotAnswer(P2, s, sh, wrote, reads) == PL(K, N)!GotAnswer(P2, s, sh, wrote, reads)
+ConnProblem(P2, s, sh) == PL(K, N)!ConnProblem(P2, s, sh)
+Results(P2) == PL(K, N)!Results(P2)
+MapSaw(M, B, p) == PL(K, N)!MapSaw(M, B, p)
+ForeignIn(M, B, goal, newc, s, reads) == PL(K, N)!ForeignIn(M, B, goal, newc, s, reads)
+Untried(ord, perm, tried) == PL(K, N)!Untried(ord, perm, tried)
+PlanFails(M, B, ord, perm) == PL(K, N)!PlanFails(M, B, ord, perm)
+Best(V2, M) == PL(K, N)!Best(V2, M)
 Servers == ToSet(C.servers)
 Perm == ToSet(C.perm)
 ShStr == {ToString(i) : i \in Shnums}
@@ -70,7 +95,9 @@ VSend(e) ==
       goal == {ReqSlot(reqs[i]) : i \in idx}
       M == mp.M
       B == mp.Bad
-      isupd == C.op = "update"
+      \* an in-place update never places a new share; an update() that re-encodes the whole file (SDMF, or because it
+      \* cannot work in place) is a publish and is judged as one
+      isupd == C.op = "update" /\ goal \subseteq KnownShares(M)
       want == PublishGoalOf(M, B, C.servers, Perm)
       newseq == IF e.newc \in 1..Len(C.vers) THEN C.vers[e.newc].seq ELSE 0
       g2 == [gh EXCEPT !.sent = TRUE, !.att = @ + 1, !.failed = FALSE, !.foreign = FALSE, !.faults = 0, !.stored = {},
@@ -81,7 +108,7 @@ VSend(e) ==
                        !.oldmiss = @ \/ (C.op = "modify" /\ Best(V, M) \notin gh.lastold)]
   IN IF ~mp.have THEN Rej("conf_send_without_map")
      ELSE IF P.pend # {} THEN Rej("X_new_requests_before_all_answers")
-     ELSE IF Cardinality(goal) # Len(reqs) \/ \E i \in idx : reqs[i].nshares # 1 THEN Rej("X_one_request_per_slot")
+     ELSE IF Cardinality(goal) # Len(reqs) \/ \E i \in idx : reqs[i].nshares # 1 THEN Rej("conf_one_request_per_slot")
      ELSE IF e.conflict \/ e.newc = 0 \/ \E i \in idx : reqs[i].newc # e.newc THEN Rej("X_requests_carry_one_new_version")
      ELSE IF \E i \in idx : ~reqs[i].si_ok THEN Rej("X_storage_index")
      ELSE IF \E i \in idx : ~reqs[i].we_ok THEN Rej("X_write_enabler_of_that_server")
@@ -93,7 +120,6 @@ VSend(e) ==
      ELSE IF ~isupd /\ ~(Slots0(M, B) \subseteq goal) THEN Rej("X_goal_keeps_known_and_bad_slots")
      ELSE IF ~isupd /\ \E p \in goal \ Slots0(M, B) : p[1] \notin Perm THEN Rej("X_new_share_on_server_without_permission")
      ELSE IF ~isupd /\ goal # want THEN Rej("X_goal_placement")
-     ELSE IF isupd /\ ~(goal \subseteq KnownShares(M)) THEN Rej("X_update_places_new_share")
      ELSE IF isupd /\ ~(UpdateGoalDoc(M, C.base) \subseteq goal) THEN Rej("X_update_skips_share_of_its_version")
      \* ---- the test vectors: every write is conditional on exactly what the map saw in that slot
      ELSE IF \E i \in idx : reqs[i].test.kind \notin {"eq", "absent"} THEN Rej("X_test_vector_missing")
@@ -173,6 +199,7 @@ VAfter(e) ==
       holdsNew == {p \in Servers \X Shnums : D[p[1]][p[2]] = newv}
       invalid == {p \in holdsNew : cls(p[1], p[2]) # "intact"}
       mapok == ~e.mapmoved
+      newest == \A p \in Servers \X Shnums : LET c == D[p[1]][p[2]] IN Genuine(c) /\ c # newv /\ c <= Len(C.vers) => C.vers[c].seq < C.vers[newv].seq
   IN IF D # L THEN Rej("conf_final_state")
      ELSE IF ~gh.sent THEN
           \* known disagreements, judged last
@@ -191,7 +218,9 @@ VAfter(e) ==
      \* ---- known disagreements between documents and code, judged last
      ELSE IF invalid # {} /\ ~(invalid \subseteq gh.othergoal) THEN Rej("X_written_share_invalid")
      ELSE IF invalid # {} THEN Rej("X_update_corrupts_share_of_other_version")
-     ELSE IF ok /\ newv \notin ToSet(e.dl) THEN Rej("X_reader_does_not_get_the_new_version")
+     ELSE IF ok /\ newv \notin ToSet(e.dl) /\ newest /\ C.op = "update" /\ gh.att >= 2 THEN Rej("X_update_retry_publishes_other_contents")
+     \* (a version of the same or a higher seqnum that the survey could not see may still win: "server unavailability counts against us")
+     ELSE IF ok /\ newv \notin ToSet(e.dl) /\ newest THEN Rej("X_reader_does_not_get_the_new_version")
      ELSE IF C.op = "modify" /\ gh.res \in {"NotEnoughShares", "Unrecoverable"} /\ GridRecoverable
        THEN Rej("X_modify_gives_up_on_recoverable_file")
      ELSE IF gh.oldmiss THEN Rej("X_modify_retry_reads_old_version")
